@@ -38,11 +38,13 @@ CLAIMED = {
     "C01": dict(
         text="Coq theorems: per-cell continuity D(Js+Jn) = B mu_boundary for every mesh/psi/links/boundary data whenever the "
              "linear solve returned a solution (uses L = D.G), total injection = sum len x density, and L_t * density_t = I_t for "
-             "every balanced assignment. Correspondence: real TDGLSolver.update calls vs Model.Step.step (psi', Js, Jn, rhs; SuperLU "
+             "every balanced assignment; the change-only cache of update_mu_boundary is coherent after any call sequence "
+             "(cache_coherent), whichever of CPython's two summation paths runs. Correspondence: update_mu_boundary call "
+             "sequences (bit-exact, both summation paths); real TDGLSolver.update calls vs Model.Step.step (psi', Js, Jn, rhs; SuperLU "
              "contract measured). Oracle on every update of real runs (2-4 terminals, holes, static/ramped field, constant and "
              "time-dependent currents, screening, three current units) and an accept/reject table of balanced assignments.",
         note="Coq kernel; stdlib real-number axioms; SuperLU an oracle with measured contract; terminal membership (matplotlib Path) "
-             "taken as data; cache coherence of update_mu_boundary exercised by the oracle, not yet proved.",
+             "taken as data; cache_coherent assumes terminals cover disjoint boundary edges.",
         technique="Coq proof over R + vm_compute step correspondence + per-update continuity oracle",
         design="7/C01"),
     "C04": dict(
